@@ -128,11 +128,27 @@ def gen_decl(r, kind_choice=None, avoid=()):
     if "class.from_json" in avoid:
         kind = "model"
     defaults = {}
-    if r.random() < 0.3:
-        fn, ft = fields[-1]
-        if ft in ("int", "str", "bool"):
-            defaults[fn] = gen_value(r, ft)
-    return {"kind": kind, "name": "Rec", "fields": fields, "derives": derives, "can_ord": can_ord, "can_hash": can_hash, "has_float": has_float, "defaults": defaults}
+    if r.random() < 0.45:
+        # trailing fields may carry defaults - including `= None` for options and `= []` for lists
+        for fn, ft in reversed(fields):
+            if ft in ("int", "str", "bool"):
+                defaults[fn] = gen_value(r, ft)
+            elif ft in ("opt_int", "opt_str"):
+                defaults[fn] = None
+            elif ft in ("list_int", "list_str"):
+                defaults[fn] = []
+            else:
+                break
+            if r.random() < 0.5:
+                break
+    levels = None
+    if kind == "class" and len(fields) >= 2 and "class.extends" not in avoid and r.random() < 0.5:
+        # a class hierarchy: the declared field order is ancestors first
+        n = 3 if len(fields) >= 3 and r.random() < 0.6 else 2
+        cuts = sorted(r.sample(range(1, len(fields)), n - 1))
+        levels = [fields[a:b] for a, b in zip([0] + cuts, cuts + [len(fields)])]
+    return {"kind": kind, "name": "Rec", "fields": fields, "derives": derives, "can_ord": can_ord, "can_hash": can_hash, "has_float": has_float, "defaults": defaults,
+            "levels": levels}
 
 
 def ctor(decl, vals):
@@ -150,11 +166,16 @@ def build_program(r, decl, nvals):
     if needs_nested:
         inner_ders = [d for d in decl["derives"]]
         L += ["@derive(%s)" % ", ".join(inner_ders), "model Inner:", "    n: int", "    label: str", "", ""]
-    L += ["@derive(%s)" % ", ".join(decl["derives"]), "%s %s:" % (decl["kind"], decl["name"])]
-    for fn, ft in decl["fields"]:
-        d = (" = " + lit(ft, decl["defaults"][fn], "Inner")) if fn in decl["defaults"] else ""
-        L.append("    %s: %s%s" % (fn, ty_text(ft, "Inner"), d))
-    L += ["", ""]
+    levels = decl.get("levels") or [decl["fields"]]
+    for li, lf in enumerate(levels):
+        last = li == len(levels) - 1
+        name = decl["name"] if last else "Base%d" % li
+        ext = " extends Base%d" % (li - 1) if li > 0 else ""
+        L += ["@derive(%s)" % ", ".join(decl["derives"]), "%s %s%s:" % (decl["kind"], name, ext)]
+        for fn, ft in lf:
+            d = (" = " + lit(ft, decl["defaults"][fn], "Inner")) if fn in decl["defaults"] else ""
+            L.append("    %s: %s%s" % (fn, ty_text(ft, "Inner"), d))
+        L += ["", ""]
     vals = [{fn: gen_value(r, ft) for fn, ft in decl["fields"]} for _ in range(nvals)]
     for fn in decl["defaults"]:
         vals[0][fn] = decl["defaults"][fn]
